@@ -28,7 +28,9 @@ CONTENTS = [b"retry=5\nhost=example\ntimeout=30\nlog_target=syslog\nfvn=r\n", b"
             b"[net]\nhost=example\n[log]\nlevel=info\n[net]\nport=22\n", b"[S]\nx=1\n[T]\ny=2\n[S]\nz=3\n[T]\nw=4\n",
             # bytes beyond ASCII (UTF-8 text, bytes that are no text at all) and control characters in names, keys and values
             b"motd=Gr\xc3\xbc\xc3\x9fe\n[se\xc3\xb1al]\ngr\xc3\xb6\xc3\x9fe=12\ntitle=Caf\xc3\xa9 \xe2\x80\x93 men\xc3\xba\n",
-            b"raw=\xff\xfe\x80\n[\xe6\x97\xa5\xe6\x9c\xac]\nk=\xe8\xaa\x9e\n  \xc3\x96l\n", b"esc=\x1b[1mbold\x1b[0m\nbell=a\x07b\x01\n"]
+            b"raw=\xff\xfe\x80\n[\xe6\x97\xa5\xe6\x9c\xac]\nk=\xe8\xaa\x9e\n  \xc3\x96l\n", b"esc=\x1b[1mbold\x1b[0m\nbell=a\x07b\x01\n",
+            # the other comment character of a two-character --comment set
+            b"; note\nk=v ; t\n[S]\n; d\nk2=w\n# e\nk3=x # f\n"]
 BAD = [b"[broken\nx=1\n", b"a=1\n[S] tail\n", b"a=1\nb=2\n[]\n", b"k v\n"]
 
 
